@@ -316,7 +316,7 @@ func TestVerifC17Req(t *testing.T) {
 			jobs = append(jobs, all[(i+seed+k*(len(all)/perDef+1))%len(all)])
 		}
 	}
-	const workers = 16
+	workers := verifutil.EnvInt("VERIF_WORKERS", 48) // the jobs mostly wait (the client waits up to a second for its wire trace)
 	recs := make([]map[string]*c17Recorder, workers)
 	for w := range recs {
 		recs[w] = map[string]*c17Recorder{}
